@@ -32,6 +32,26 @@ func hasMultiKeyDict(v any) bool {
 	return false
 }
 
+func hasFloat(v any) bool {
+	switch x := v.(type) {
+	case float64, float32:
+		return true
+	case []any:
+		for _, e := range x {
+			if hasFloat(e) {
+				return true
+			}
+		}
+	case map[string]any:
+		for _, e := range x {
+			if hasFloat(e) {
+				return true
+			}
+		}
+	}
+	return false
+}
+
 // goTyped re-types the integers of a value into other Go integer types (the codec then uses
 // other encodings, e.g. the signed MessagePack families for a non-negative int).
 func goTyped(r *runner, v any) any {
@@ -72,11 +92,6 @@ func goTyped(r *runner, v any) any {
 		return out
 	}
 	return v
-}
-
-func (r *runner) sectionWire(n, nbytes int) {
-	r.wireValues(n)
-	r.wireBytes(nbytes)
 }
 
 // (i) Go-encode → Lean-decode, canonical bytes; (ii) Lean-encode → Go-decode.
@@ -127,6 +142,13 @@ func (r *runner) wireValues(n int) {
 		decAns, encAns := outs[2*i], outs[2*i+1]
 		in := map[string]any{"format": j.f.name, "value": j.render, "go_bytes": hex.EncodeToString(j.gob)}
 		r.sum.Evaluations += 2
+		if j.f.name == "json" && strings.Contains(j.render, "d") && hasFloat(j.v) {
+			// floats are outside the Lean JSON fragment (decimal printing is the codec's)
+			if encAns == "invalid" {
+				r.sum.Count("wire.json-float-outside-fragment")
+				continue
+			}
+		}
 		// (i)
 		want := "ok " + j.render + " -"
 		if decAns != want && !(j.f.name == "json" && looseSame(decAns, want)) {
